@@ -8,7 +8,7 @@ cursor and to the fill level) is the fault.
 from ..rng import digest
 
 PROPERTY = 'C20'
-TIERS = {'quick': {'runs': 480000, 'group': 6000}, 'thorough': {'runs': 12000000, 'group': 50000}}
+TIERS = {'quick': {'runs': 480000, 'group': 6000}, 'thorough': {'runs': 6000000, 'group': 50000}}
 RULE = ('Each run draws an underlying sequence of 0-8 items (string-backed, token-backed with explicit '
         'positions, list-of-str-backed or generator-backed so that filling is lazy) and a history of 1-40 '
         'operations (next, forward, backward, peek int/range, slicing, indexing, hasNext, startswith, endswith, '
